@@ -80,15 +80,21 @@ func RunNative(repo, pkgDir string, overlay map[string][]byte, cases []NativeCas
 	casesPath := filepath.Join(tmp, "cases.json")
 	os.WriteFile(casesPath, casesJSON, 0o644)
 	outPath := filepath.Join(tmp, "out.json")
-	ctx, cancel := context.WithTimeout(context.Background(), timeout+60*time.Second)
+	ctx, cancel := context.WithTimeout(context.Background(), timeout+120*time.Second)
 	defer cancel()
-	cmd := exec.CommandContext(ctx, "go", "test", "-tags", "verif", "-vet=off", "-count=1", "-run", "^TestVerifReplay$",
-		"-timeout", fmt.Sprintf("%ds", int(timeout.Seconds())), "-overlay", ovPath, "./"+pkgDir)
-	cmd.Dir = repo
-	cmd.Env = append(os.Environ(), "GOFLAGS=-mod=mod", "GOPROXY=off", "GOSUMDB=off", "GOTOOLCHAIN=local",
-		"VERIF_REPLAY_FILE="+casesPath, "VERIF_REPLAY_OUT="+outPath)
+	binPath := filepath.Join(tmp, "replay.test")
+	build := exec.CommandContext(ctx, "go", "test", "-c", "-o", binPath, "-tags", "verif", "-vet=off", "-overlay", ovPath, "./"+pkgDir)
+	build.Dir = repo
+	build.Env = append(os.Environ(), "GOFLAGS=-mod=mod", "GOPROXY=off", "GOSUMDB=off", "GOTOOLCHAIN=local")
+	bout, berr := build.CombinedOutput()
+	if berr != nil {
+		return nil, string(bout), fmt.Errorf("building the native replay binary failed: %v", berr)
+	}
+	cmd := exec.CommandContext(ctx, binPath, "-test.run", "^TestVerifReplay$", "-test.timeout", fmt.Sprintf("%ds", int(timeout.Seconds())))
+	cmd.Dir = tmp
+	cmd.Env = append(os.Environ(), "VERIF_REPLAY_FILE="+casesPath, "VERIF_REPLAY_OUT="+outPath)
 	outb, err := cmd.CombinedOutput()
-	log := string(outb)
+	log := string(bout) + string(outb)
 	data, rerr := os.ReadFile(outPath)
 	if rerr != nil {
 		return nil, log, fmt.Errorf("native replay produced no results (go test: %v)", err)
